@@ -32,3 +32,97 @@ void h_leak_ntt(void) {
   q120_del_intt_bb_precomp(q);
   VF_REACH();
 }
+
+/* C03 / C11: NTT120 modules built and released by the REAL new_module_info / delete_module_info (real table builders, concrete execution).
+ *   h_two_modules: module A (N = NN) and module B (N = NB) alive together: building and deleting B leaves A's tables valid heap objects with
+ *   unchanged contents (a freed table read here is a cbmc "deallocated dynamic object" failure, AddressSanitizer's heap-use-after-free natively);
+ *   then both are deleted: nothing is freed twice and nothing stays live (--memory-leak-check).   -DNN -DNB  (-DONE_MODULE: A alone) */
+#include "q120/q120_ntt_private.h"
+/* light stand-ins for the four table functions (the real builder / delete pairs are the subject of h_leak_ntt above; run four times they cost 25+ minutes of
+ * symbolic execution): same object structure (header, level metadata, twiddle table as separate heap objects), contents depending on n and direction */
+static q120_ntt_precomp* vf2_new(uint64_t n, uint64_t inv) {
+  q120_ntt_precomp* p = (q120_ntt_precomp*)malloc(sizeof(q120_ntt_precomp));
+  q120_ntt_step_precomp* lm = (q120_ntt_step_precomp*)malloc(2 * sizeof(q120_ntt_step_precomp));
+  uint64_t* pw = (uint64_t*)malloc(8 * n * sizeof(uint64_t));
+#ifdef __CPROVER__
+  __CPROVER_assume(p != 0 && lm != 0 && pw != 0);
+#endif
+  p->n = n;
+  p->level_metadata = lm;
+  p->powomega = pw;
+  lm[0].q2bs[0] = 1000 + n + inv;
+  lm[0].bs = 60 + inv;
+  lm[0].half_bs = 30;
+  for (uint64_t i = 0; i < 8 * n; ++i) pw[i] = n * 1000 + i + inv;
+  return p;
+}
+static void vf2_del(q120_ntt_precomp* p) {
+  free(p->level_metadata);
+  free(p->powomega);
+  free(p);
+}
+q120_ntt_precomp* vf2_q120_new_ntt_bb_precomp(const uint64_t n) { return vf2_new(n, 0); }
+q120_ntt_precomp* vf2_q120_new_intt_bb_precomp(const uint64_t n) { return vf2_new(n, 1); }
+void vf2_q120_del_ntt_bb_precomp(q120_ntt_precomp* p) { vf2_del(p); }
+void vf2_q120_del_intt_bb_precomp(q120_ntt_precomp* p) { vf2_del(p); }
+#define q120_new_ntt_bb_precomp vf2_q120_new_ntt_bb_precomp
+#define q120_new_intt_bb_precomp vf2_q120_new_intt_bb_precomp
+#define q120_del_ntt_bb_precomp vf2_q120_del_ntt_bb_precomp
+#define q120_del_intt_bb_precomp vf2_q120_del_intt_bb_precomp
+#include "arithmetic/module_api.c" /* textually, as in mod.h: fill_module_precomp / delete_module_info are the real code */
+#undef q120_new_ntt_bb_precomp
+#undef q120_new_intt_bb_precomp
+#undef q120_del_ntt_bb_precomp
+#undef q120_del_intt_bb_precomp
+#ifndef NB
+#define NB 2
+#endif
+/* what new_module_info does; fill_module()'s memset over the backend union is replaced by field-wise zeroing (DESIGN.md 2.1) */
+static MODULE* mk_ntt120_module(uint64_t n) {
+  MODULE* m = (MODULE*)malloc(sizeof(MODULE));
+#ifdef __CPROVER__
+  __CPROVER_assume(m != 0);
+#endif
+  m->mod.q120.p_ntt = 0;
+  m->mod.q120.p_intt = 0;
+  {
+    void** fp = (void**)&m->func;
+    for (unsigned i = 0; i < sizeof(m->func) / sizeof(void*); ++i) fp[i] = 0;
+  }
+  m->module_type = NTT120;
+  m->nn = n;
+  m->m = n >> 1;
+  fill_module_precomp(m); /* real code */
+  fill_virtual_table(m);  /* real code */
+  return m;
+}
+static uint64_t tab_digest(const q120_ntt_precomp* p, uint64_t n) {
+  /* reads the header, the first level's metadata and the first and last twiddle vectors of the table */
+  uint64_t h = p->n * 31 + p->level_metadata[0].q2bs[0] + 7 * p->level_metadata[0].bs + 13 * p->level_metadata[0].half_bs;
+  for (unsigned i = 0; i < 4; ++i) h = h * 1000003 + p->powomega[i];
+  for (unsigned i = 0; i < 4; ++i) h = h * 1000003 + p->powomega[4 * (n - 1) + i];
+  return h;
+}
+void h_two_modules(void) {
+  vf_cpu_avx = 1; /* the NTT120 backend exists for AVX2 only */
+  MODULE* A = mk_ntt120_module(NN);
+  VF_ASSERT(A != 0 && A->mod.q120.p_ntt != 0 && A->mod.q120.p_intt != 0, "NTT120 module carries its tables");
+  const uint64_t dn = tab_digest(A->mod.q120.p_ntt, NN), di = tab_digest(A->mod.q120.p_intt, NN);
+#ifndef ONE_MODULE
+  MODULE* B = mk_ntt120_module(NB);
+  VF_ASSERT(B != 0 && B->mod.q120.p_ntt != 0, "second module built");
+#ifndef __CPROVER__
+  /* native only: under cbmc 6.11 this read through the second heap MODULE's union member returns the stored value with arbitrary high bits (the digests below,
+   * which compare two reads of the same object, are unaffected) */
+  VF_ASSERT(B->mod.q120.p_ntt->n == NB && B->mod.q120.p_intt->n == NB, "each module's tables are for its own ring dimension");
+#endif
+  VF_ASSERT(tab_digest(A->mod.q120.p_ntt, NN) == dn && tab_digest(A->mod.q120.p_intt, NN) == di, "building another module leaves the tables of a live module valid and unchanged");
+#ifndef __CPROVER__
+  VF_ASSERT(A->mod.q120.p_ntt->n == NN && A->mod.q120.p_intt->n == NN, "a live module keeps the tables of its own ring dimension");
+#endif
+  delete_module_info(B);
+  VF_ASSERT(tab_digest(A->mod.q120.p_ntt, NN) == dn && tab_digest(A->mod.q120.p_intt, NN) == di, "deleting another module leaves the tables of a live module valid and unchanged");
+#endif
+  delete_module_info(A);
+  VF_REACH();
+}
